@@ -2,6 +2,11 @@ import Nervus.Driver.Util
 import Nervus.Driver.OKey
 import Nervus.Driver.Codec
 import Nervus.Driver.WalFrame
+import Nervus.Driver.CapiSched
+import Nervus.Driver.Locks
+import Nervus.Driver.Handles
+import Nervus.Driver.SnapSched
+import Nervus.Driver.Backup
 open Nervus.Driver
 
 /-- stream registry: one line per stream (kept one-per-line so that merges are unions) -/
@@ -9,6 +14,11 @@ def streams : List (String × Stream) := [
   ("okey", OKeyStream.stream),
   ("codec", CodecStream.stream),
   ("walframe", WalFrameStream.stream)
+  ("capi_sched", CapiSchedStream.stream),
+  ("locks", LocksStream.stream),
+  ("handles", HandlesStream.stream),
+  ("snapsched", SnapSchedStream.stream),
+  ("backup", BackupStream.stream)
 ]
 
 def main (args : List String) : IO UInt32 := do
